@@ -887,3 +887,544 @@ Proof.
   intros Hk Hwf Hs Hok. unfold fire_prop. rewrite norm_raw_denote by auto.
   rewrite (emit_format_spec sigs env f txt) by auto. destruct k; try congruence; reflexivity.
 Qed.
+
+(* ------------------------------------------------------------------ *)
+(* '_' grouping: CPython's loop = pad with zeros, then group from the right *)
+
+Lemma zlen_cons x (l : list Z) : zlen (x :: l) = 1 + zlen l.
+Proof. unfold zlen. cbn [length]. lia. Qed.
+Lemma zlen_nil : zlen [] = 0.
+Proof. reflexivity. Qed.
+Lemma zlen_zero_nil (l : list Z) : zlen l <= 0 -> l = [].
+Proof. destruct l; [reflexivity|rewrite zlen_cons; pose proof (zlen_nonneg l); lia]. Qed.
+
+Lemma rev_repeat (x : Z) n : rev (repeat x n) = repeat x n.
+Proof.
+  induction n as [|n IH]; [reflexivity|]. cbn [repeat rev]. rewrite IH.
+  clear IH. induction n as [|n IH]; [reflexivity|]. cbn [repeat app]. f_equal. exact IH.
+Qed.
+Lemma rev_pad n c : rev (pad n c) = pad n c.
+Proof. apply rev_repeat. Qed.
+
+Lemma go_nosep g xs : forall c r acc, c + zlen xs <= g ->
+  sep_right_go g c (xs ++ r) acc = sep_right_go g (c + zlen xs) r (rev xs ++ acc).
+Proof.
+  induction xs as [|x xs IH]; intros c r acc Hc.
+  - cbn [app rev]. rewrite zlen_nil, Z.add_0_r. reflexivity.
+  - rewrite zlen_cons in *. pose proof (zlen_nonneg xs). cbn [app sep_right_go].
+    destruct (c =? g) eqn:E; [lia|]. rewrite IH by lia. cbn [rev]. rewrite <- app_assoc. cbn [app].
+    f_equal. lia.
+Qed.
+
+(* one group of CPython's loop in terms of the specification *)
+Lemma go_group g xs r acc (first : bool) : 1 <= g -> 1 <= zlen xs <= g ->
+  sep_right_go g (if first then 0 else g) (xs ++ r) acc =
+  sep_right_go g (zlen xs) r (rev xs ++ (if first then [] else [95]) ++ acc).
+Proof.
+  intros Hg Hx. destruct first.
+  - rewrite go_nosep by lia. reflexivity.
+  - destruct xs as [|x xs]; [rewrite zlen_nil in Hx; lia|]. rewrite zlen_cons in *.
+    cbn [app sep_right_go]. rewrite Z.eqb_refl. rewrite go_nosep by lia.
+    cbn [rev]. rewrite <- app_assoc. reflexivity.
+Qed.
+
+Lemma grouped_len_small g n : 1 <= n <= g -> grouped_len g n = n.
+Proof. intros H. unfold grouped_len. rewrite Z.div_small by lia. lia. Qed.
+
+Lemma grouped_len_step g m : 1 <= g -> grouped_len g (g + m) = g + 1 + grouped_len g m.
+Proof.
+  intros Hg. unfold grouped_len. replace (g + m - 1) with (m - 1 + 1 * g) by lia.
+  rewrite Z.div_add by lia. lia.
+Qed.
+
+Definition gtarget (g mw : Z) : Z := if mw mod (g + 1) =? 0 then mw + 1 else mw.
+
+Lemma gtarget_step g mw : 1 <= g -> gtarget g mw = gtarget g (mw - g - 1) + g + 1.
+Proof.
+  intros Hg. unfold gtarget. replace (mw - g - 1) with (mw + (-1) * (g + 1)) by lia.
+  rewrite Z.mod_add by lia. destruct (mw mod (g + 1) =? 0); lia.
+Qed.
+
+Lemma group_loop_spec G : 1 <= G -> forall fuel rd mw first acc,
+  (length rd + Z.to_nat mw < fuel)%nat -> (rd <> [] \/ 0 <= mw) ->
+  exists k, 0 <= k /\
+    group_loop fuel G rd mw first acc = sep_right_go G (if first then 0 else G) (rd ++ pad k 48) acc /\
+    (rd = [] -> 0 < k) /\
+    mw <= grouped_len G (zlen rd + k) /\
+    (0 < k -> 0 <= mw /\ grouped_len G (zlen rd + k) = gtarget G mw).
+Proof.
+  intros HG. induction fuel as [|f IH]; intros rd mw first acc Hfuel Hpre; [lia|].
+  cbn [group_loop].
+  set (n := zlen rd). set (len := Z.min G (Z.max (Z.max n mw) 1)).
+  set (n_zeros := Z.max 0 (len - n)). set (n_chars := Z.max 0 (Z.min n len)).
+  assert (Hn : 0 <= n) by apply zlen_nonneg.
+  assert (Hlen : 1 <= len <= G) by (unfold len; lia).
+  set (taken := firstn (Z.to_nat n_chars) rd). set (rest := skipn (Z.to_nat n_chars) rd).
+  assert (Hsplit : rd = taken ++ rest) by (symmetry; apply firstn_skipn).
+  assert (Hrest : zlen rest = n - n_chars).
+  { unfold zlen, rest. rewrite skipn_length. unfold n, zlen in *. lia. }
+  assert (Htaken : zlen taken = n_chars).
+  { assert (zlen rd = zlen taken + zlen rest) by (rewrite Hsplit at 1; apply zlen_app). unfold n in *. lia. }
+  assert (Hsum : n_chars + n_zeros = len) by (unfold n_chars, n_zeros; lia).
+  assert (Hzr : 0 < n_zeros -> rest = []).
+  { intros Hz. apply zlen_zero_nil. unfold n_zeros, n_chars in *. lia. }
+  set (xs := taken ++ pad n_zeros 48).
+  assert (Hxs : zlen xs = len) by (unfold xs; rewrite zlen_app, zlen_pad; unfold n_zeros in *; lia).
+  assert (Hrevxs : rev xs = pad n_zeros 48 ++ rev taken) by (unfold xs; rewrite rev_app_distr, rev_pad; reflexivity).
+  assert (Hdecomp : forall k', 0 <= k' -> rd ++ pad (n_zeros + k') 48 = xs ++ (rest ++ pad k' 48)).
+  { intros k' Hk'. rewrite <- pad_app by (unfold n_zeros; lia). unfold xs.
+    destruct (Z.eq_dec n_zeros 0) as [Hz|Hz].
+    - rewrite !(pad_nonpos n_zeros) by lia. cbn [app]. rewrite app_nil_r.
+      rewrite Hsplit at 1. rewrite <- app_assoc. reflexivity.
+    - rewrite (Hzr ltac:(unfold n_zeros in *; lia)) in *. rewrite app_nil_r in Hsplit.
+      rewrite Hsplit at 1. cbn [app]. rewrite <- app_assoc. reflexivity. }
+  destruct ((zlen rest <=? 0) && (mw - len <=? 0)) eqn:Estop.
+  - (* last group *)
+    assert (Hre : rest = []) by (apply zlen_zero_nil; lia).
+    assert (Hnc : n_chars = n) by (rewrite Hre, zlen_nil in Hrest; lia).
+    exists n_zeros. split; [unfold n_zeros; lia|]. split; [|split; [|split]].
+    + replace n_zeros with (n_zeros + 0) at 2 by lia. rewrite (Hdecomp 0) by lia.
+      rewrite go_group by (auto; lia). rewrite Hre, (pad_nonpos 0) by lia. cbn [app sep_right_go].
+      rewrite Hrevxs, <- app_assoc. reflexivity.
+    + intros ->. change (zlen []) with 0 in *. unfold n_zeros, n in *. lia.
+    + fold n. replace (n + n_zeros) with len by lia. rewrite grouped_len_small by lia. lia.
+    + intros Hk. fold n. replace (n + n_zeros) with len by lia. rewrite grouped_len_small by lia.
+      assert (Hmw0 : 0 <= mw).
+      { destruct Hpre as [Hne|]; [|auto]. destruct (Z_lt_le_dec mw 0); [|auto].
+        exfalso. assert (1 <= n) by (destruct rd; [congruence|unfold n; rewrite zlen_cons; pose proof (zlen_nonneg rd); lia]).
+        unfold n_zeros, len in *. lia. }
+      split; [exact Hmw0|]. unfold gtarget.
+      destruct (Z.eq_dec mw 0) as [->|Hmw].
+      * rewrite Z.mod_0_l by lia. cbn. unfold n_zeros, len in *. lia.
+      * assert (len = mw) by (unfold n_zeros, len in *; lia).
+        rewrite Z.mod_small by lia. destruct (mw =? 0) eqn:E; lia.
+  - (* a full group, more to come *)
+    assert (HlenG : len = G).
+    { destruct (Z.eq_dec len G); [auto|]. exfalso.
+      assert (len = Z.max (Z.max n mw) 1) by (unfold len in *; lia).
+      assert (zlen rest = 0) by (unfold n_chars in *; lia). lia. }
+    destruct (IH rest (mw - len - 1) false (pad n_zeros 48 ++ rev taken ++ (if first then [] else [95]) ++ acc))
+      as (k' & Hk' & Hres & Hnil & Hle & Hmin).
+    { assert (Z.of_nat (length rest) = n - n_chars) by exact Hrest.
+      assert (Z.of_nat (length rd) = n) by reflexivity.
+      unfold n_chars in *. lia. }
+    { destruct rest as [|? ?] eqn:Er; [right|left; discriminate]. rewrite zlen_nil in *. lia. }
+    exists (n_zeros + k'). split; [unfold n_zeros; lia|]. split; [|split; [|split]].
+    + rewrite Hres, (Hdecomp k') by lia. rewrite go_group by (auto; lia).
+      rewrite Hxs, HlenG, Hrevxs, <- app_assoc. reflexivity.
+    + intros ->. change (zlen []) with 0 in *. unfold n_zeros, n in *. lia.
+    + fold n. replace (n + (n_zeros + k')) with (G + (zlen rest + k')) by lia.
+      rewrite grouped_len_step by auto. lia.
+    + intros Hk. fold n. replace (n + (n_zeros + k')) with (G + (zlen rest + k')) by lia.
+      rewrite grouped_len_step by auto.
+      assert (Hk'pos : 0 < k').
+      { destruct (Z_lt_le_dec 0 k'); [auto|]. assert (0 < n_zeros) by lia. apply Hnil. auto. }
+      destruct (Hmin Hk'pos) as [Hm0 Hm]. split; [lia|].
+      rewrite Hm, (gtarget_step G mw) by auto. rewrite HlenG. lia.
+Qed.
+
+Lemma go_length g : 1 <= g -> forall rl cnt acc, 1 <= cnt <= g ->
+  zlen (sep_right_go g cnt rl acc) = zlen acc + zlen rl + (cnt + zlen rl - 1) / g.
+Proof.
+  intros Hg. induction rl as [|c r IH]; intros cnt acc Hc.
+  - cbn [sep_right_go]. rewrite zlen_nil. rewrite Z.div_small by lia. lia.
+  - cbn [sep_right_go]. rewrite zlen_cons. pose proof (zlen_nonneg r).
+    destruct (cnt =? g) eqn:E.
+    + rewrite IH by lia. rewrite !zlen_cons.
+      replace (cnt + (1 + zlen r) - 1) with (1 + zlen r - 1 + 1 * g) by lia.
+      rewrite Z.div_add by lia. lia.
+    + rewrite IH by lia. rewrite zlen_cons. replace (cnt + 1 + zlen r - 1) with (cnt + (1 + zlen r) - 1) by lia. lia.
+Qed.
+
+Lemma sep_right_length g l : 1 <= g -> l <> [] -> zlen (sep_right g l) = grouped_len g (zlen l).
+Proof.
+  intros Hg Hl. unfold sep_right, grouped_len.
+  assert (Hr : zlen (rev l) = zlen l) by (unfold zlen; rewrite rev_length; reflexivity).
+  destruct (rev l) as [|c r] eqn:E.
+  - exfalso. apply Hl. rewrite <- (rev_involutive l), E. reflexivity.
+  - cbn [sep_right_go]. destruct (0 =? g) eqn:E0; [lia|]. rewrite go_length by lia.
+    rewrite <- Hr, !zlen_cons, zlen_nil. replace (0 + 1 + zlen r - 1) with (1 + zlen r - 1) by lia. lia.
+Qed.
+
+Lemma gl_decomp g n : 1 <= g -> 1 <= n ->
+  exists q r, 0 <= q /\ 0 <= r < g /\ n = g * q + r + 1 /\ grouped_len g n = (g + 1) * q + r + 1.
+Proof.
+  intros Hg Hn. exists ((n - 1) / g), ((n - 1) mod g).
+  pose proof (Z.div_mod (n - 1) g ltac:(lia)). pose proof (Z.mod_pos_bound (n - 1) g ltac:(lia)).
+  assert (0 <= (n - 1) / g) by (apply Z.div_pos; lia).
+  unfold grouped_len. repeat split; try lia.
+Qed.
+
+Lemma gl_mono g a b : 1 <= g -> 1 <= a -> a < b -> grouped_len g a < grouped_len g b.
+Proof.
+  intros Hg Ha Hab. unfold grouped_len.
+  assert ((a - 1) / g <= (b - 1) / g) by (apply Z.div_le_mono; lia). lia.
+Qed.
+
+Lemma gl_not_multiple g n : 1 <= g -> 1 <= n -> grouped_len g n mod (g + 1) <> 0.
+Proof.
+  intros Hg Hn. destruct (gl_decomp g n Hg Hn) as (q & r & Hq & Hr & _ & ->).
+  replace ((g + 1) * q + r + 1) with (r + 1 + q * (g + 1)) by lia.
+  rewrite Z.mod_add by lia. rewrite Z.mod_small by lia. lia.
+Qed.
+
+Lemma gl_inverse g n : 1 <= g -> 1 <= n ->
+  grouped_len g n - grouped_len g n / (g + 1) = n.
+Proof.
+  intros Hg Hn. destruct (gl_decomp g n Hg Hn) as (q & r & Hq & Hr & Hn' & ->).
+  replace ((g + 1) * q + r + 1) with (r + 1 + q * (g + 1)) by lia.
+  rewrite Z.div_add by lia. rewrite Z.div_small by lia. lia.
+Qed.
+
+(* the number of zeros CPython's loop adds is the declarative zero_count *)
+Lemma zero_count_unique g n mw k : 1 <= g -> 1 <= n -> 0 <= k ->
+  mw <= grouped_len g (n + k) ->
+  (0 < k -> 0 <= mw /\ grouped_len g (n + k) = gtarget g mw) ->
+  zero_count g n mw = k.
+Proof.
+  intros Hg Hn Hk Hle Hmin. unfold zero_count. fold (gtarget g mw).
+  destruct (Z.eq_dec k 0) as [->|Hk0].
+  - rewrite Z.add_0_r in *. assert (Ht : gtarget g mw <= grouped_len g n).
+    { unfold gtarget. destruct (mw mod (g + 1) =? 0) eqn:E; [|lia].
+      destruct (Z.eq_dec mw (grouped_len g n)) as [->|]; [|lia].
+      exfalso. apply (gl_not_multiple g n); auto. lia. }
+    destruct (gtarget g mw <=? grouped_len g n) eqn:E; lia.
+  - destruct (Hmin ltac:(lia)) as [Hmw Heq].
+    pose proof (gl_mono g n (n + k) Hg Hn ltac:(lia)).
+    destruct (gtarget g mw <=? grouped_len g n) eqn:E; [lia|].
+    rewrite <- Heq, gl_inverse by lia. lia.
+Qed.
+
+Lemma group_digits_spec g digs mw : 1 <= g -> digs <> [] ->
+  group_digits (Some g) digs mw = pad_then_group g digs mw.
+Proof.
+  intros Hg Hne. unfold group_digits, pad_then_group, sep_right.
+  destruct (group_loop_spec g Hg (length digs + Z.to_nat mw + 1) (rev digs) mw true [])
+    as (k & Hk & Hres & _ & Hle & Hmin).
+  { rewrite rev_length. lia. }
+  { left. intros H. apply Hne. rewrite <- (rev_involutive digs), H. reflexivity. }
+  assert (Hz : zlen (rev digs) = zlen digs) by (unfold zlen; rewrite rev_length; reflexivity).
+  rewrite Hz in *.
+  assert (1 <= zlen digs) by (destruct digs; [congruence|rewrite zlen_cons; pose proof (zlen_nonneg digs); lia]).
+  rewrite (zero_count_unique g (zlen digs) mw k) by auto.
+  rewrite Hres, rev_app_distr, rev_pad. reflexivity.
+Qed.
+
+Lemma zero_count_nowidth g n mw : 1 <= g -> 1 <= n -> mw <= 1 -> zero_count g n mw = 0.
+Proof.
+  intros Hg Hn Hmw. unfold zero_count.
+  assert (1 <= grouped_len g n).
+  { unfold grouped_len. assert (0 <= (n - 1) / g) by (apply Z.div_pos; lia). lia. }
+  destruct (mw mod (g + 1) =? 0) eqn:E.
+  - destruct (mw + 1 <=? grouped_len g n) eqn:E2; [reflexivity|].
+    assert (mw = 1) by lia. subst mw. rewrite Z.mod_small in E by lia. lia.
+  - destruct (mw <=? grouped_len g n) eqn:E2; [reflexivity|lia].
+Qed.
+
+Lemma pad_then_group_nowidth g digs mw : 1 <= g -> digs <> [] -> mw <= 1 ->
+  pad_then_group g digs mw = sep_right g digs.
+Proof.
+  intros Hg Hne Hmw. unfold pad_then_group.
+  assert (1 <= zlen digs) by (destruct digs; [congruence|rewrite zlen_cons; pose proof (zlen_nonneg digs); lia]).
+  rewrite zero_count_nowidth by auto. rewrite pad_nonpos by lia. reflexivity.
+Qed.
+
+(* length of the padded-and-grouped digits: the width is met, with no more zeros than necessary *)
+Lemma pad_then_group_length g digs mw : 1 <= g -> digs <> [] ->
+  let L := zlen (pad_then_group g digs mw) in
+  mw <= L /\ grouped_len g (zlen digs) <= L /\
+  (grouped_len g (zlen digs) < L -> L = if mw mod (g + 1) =? 0 then mw + 1 else mw).
+Proof.
+  intros Hg Hne. rewrite <- (group_digits_spec g digs mw Hg Hne). unfold group_digits.
+  destruct (group_loop_spec g Hg (length digs + Z.to_nat mw + 1) (rev digs) mw true [])
+    as (k & Hk & Hres & _ & Hle & Hmin).
+  { rewrite rev_length. lia. }
+  { left. intros H. apply Hne. rewrite <- (rev_involutive digs), H. reflexivity. }
+  assert (Hz : zlen (rev digs) = zlen digs) by (unfold zlen; rewrite rev_length; reflexivity).
+  rewrite Hz in *.
+  assert (Hn : 1 <= zlen digs) by (destruct digs; [congruence|rewrite zlen_cons; pose proof (zlen_nonneg digs); lia]).
+  assert (HL : zlen (group_loop (length digs + Z.to_nat mw + 1) g (rev digs) mw true []) = grouped_len g (zlen digs + k)).
+  { rewrite Hres. replace (rev digs ++ pad k 48) with (rev (pad k 48 ++ digs)) by (rewrite rev_app_distr, rev_pad; reflexivity).
+    change (sep_right_go g 0 (rev (pad k 48 ++ digs)) []) with (sep_right g (pad k 48 ++ digs)).
+    rewrite sep_right_length; auto.
+    - rewrite zlen_app, zlen_pad. f_equal. lia.
+    - destruct (pad k 48); [cbn; auto|discriminate]. }
+  cbv zeta. rewrite HL. split; [auto|]. split.
+  - destruct (Z.eq_dec k 0) as [->|]; [rewrite Z.add_0_r; lia|].
+    pose proof (gl_mono g (zlen digs) (zlen digs + k) Hg Hn ltac:(lia)). lia.
+  - intros Hlt. destruct (Z.eq_dec k 0) as [->|]; [rewrite Z.add_0_r in Hlt; lia|].
+    destruct (Hmin ltac:(lia)) as [_ ->]. reflexivity.
+Qed.
+
+(* the separators of sep_right are exactly the '_' it inserts: removing them gives the text back *)
+Lemma go_strip g : forall rl cnt acc, Forall (fun c => c <> 95) rl ->
+  strip (sep_right_go g cnt rl acc) = rev rl ++ strip acc.
+Proof.
+  induction rl as [|c r IH]; intros cnt acc Hc; cbn [sep_right_go rev app]; [reflexivity|].
+  inversion Hc as [|? ? Hc1 Hc2]; subst.
+  assert (Hs : forall t, strip (c :: t) = c :: strip t).
+  { intros t. cbn [strip filter]. destruct (c =? 95) eqn:E; [lia|reflexivity]. }
+  destruct (cnt =? g); rewrite IH by auto; rewrite Hs, <- app_assoc; cbn [app]; [|reflexivity].
+  cbn [strip filter]. cbn. reflexivity.
+Qed.
+
+Lemma sep_right_strip g l : Forall (fun c => c <> 95) l -> strip (sep_right g l) = l.
+Proof.
+  intros H. unfold sep_right. rewrite go_strip by (apply Forall_rev; auto).
+  rewrite rev_involutive. cbn. apply app_nil_r.
+Qed.
+
+(* ------------------------------------------------------------------ *)
+(* grouping as a recursion from the right, most significant first *)
+
+Lemma go_acc g : forall rl cnt acc, sep_right_go g cnt rl acc = sep_right_go g cnt rl [] ++ acc.
+Proof.
+  induction rl as [|c r IH]; intros cnt acc; cbn [sep_right_go]; [reflexivity|].
+  destruct (cnt =? g).
+  - rewrite IH, (IH 1 [c; 95]), <- app_assoc. reflexivity.
+  - rewrite IH, (IH (cnt + 1) [c]), <- app_assoc. reflexivity.
+Qed.
+
+Lemma sep_right_small g b : zlen b <= g -> sep_right g b = b.
+Proof.
+  intros H. unfold sep_right.
+  assert (Hr : zlen (rev b) = zlen b) by (unfold zlen; rewrite rev_length; reflexivity).
+  rewrite <- (app_nil_r (rev b)), go_nosep by lia. cbn [sep_right_go]. rewrite rev_involutive. apply app_nil_r.
+Qed.
+
+Lemma sep_right_peel g a b : 1 <= g -> a <> [] -> zlen b = g ->
+  sep_right g (a ++ b) = sep_right g a ++ 95 :: b.
+Proof.
+  intros Hg Ha Hb. unfold sep_right. rewrite rev_app_distr.
+  assert (Hr : zlen (rev b) = zlen b) by (unfold zlen; rewrite rev_length; reflexivity).
+  rewrite go_nosep by lia. rewrite rev_involutive, app_nil_r, Z.add_0_l, Hr, Hb.
+  destruct (rev a) as [|x r] eqn:E.
+  - exfalso. apply Ha. rewrite <- (rev_involutive a), E. reflexivity.
+  - cbn [sep_right_go]. rewrite Z.eqb_refl. destruct (0 =? g) eqn:E0; [lia|].
+    rewrite go_acc, (go_acc g r (0 + 1) [x]). rewrite <- app_assoc. reflexivity.
+Qed.
+
+(* ------------------------------------------------------------------ *)
+(* py_format in terms of layout / pad_then_group                         *)
+
+Lemma assemble_layout sp dflt G s p d r :
+  assemble sp dflt G s p d r =
+  layout (eff_align sp dflt) (eff_fill sp) (f_width sp) s p (body_of sp dflt G s p d r) r.
+Proof. reflexivity. Qed.
+
+Lemma body_of_grouped sp g s p d : 1 <= g -> d <> [] ->
+  body_of sp ARight (Some g) s p d [] =
+  pad_then_group g d (if zero_mode sp ARight then f_width sp - zlen s - zlen p else 0).
+Proof.
+  intros Hg Hd. unfold body_of, zero_mode. rewrite (match_nonempty d _ Hd), group_digits_spec by auto.
+  destruct ((eff_fill sp =? 48) && match eff_align sp ARight with AEq => true | _ => false end); [|reflexivity].
+  f_equal. change (zlen []) with 0. lia.
+Qed.
+
+(* ------------------------------------------------------------------ *)
+(* RTLIL FORMAT items denote what the simulator prints                   *)
+
+Definition rtl_zero_align_case (sp : spec) : bool :=       (* '0' flag written together with an alignment, no fill *)
+  f_zero sp && match f_align sp with Some _ => true | None => false end
+  && match f_fill sp with None => true | Some _ => false end.
+Definition rtl_char_default_case (sp : spec) : bool :=     (* 'c' with a width and no alignment *)
+  match f_type sp with Some Tc => match f_align sp with None => 1 <? f_width sp | _ => false end | _ => false end.
+Definition rtl_char_brace_case (sp : spec) : bool :=       (* 'c' padded with a brace *)
+  match f_type sp, f_fill sp with Some Tc, Some c => is_brace c && (1 <? f_width sp) | _, _ => false end.
+Definition rtl_agrees (sp : spec) : bool :=
+  negb (rtl_zero_align_case sp) && negb (rtl_char_default_case sp) && negb (rtl_char_brace_case sp).
+
+Lemma eff_dict sp dflt : (f_fill sp <> None -> f_align sp <> None) -> rtl_zero_align_case sp = false ->
+  eff_fill sp = match dict_fill sp with Some c => c | None => 32 end /\
+  eff_align sp dflt = match dict_align sp with Some a => a | None => dflt end.
+Proof.
+  unfold rtl_zero_align_case, eff_fill, eff_align, dict_fill, dict_align, dict_zf.
+  intros Hg Hc. destruct (f_fill sp) as [c|], (f_align sp) as [a|], (f_zero sp); cbn in *; try discriminate; auto;
+    destruct Hg; congruence.
+Qed.
+
+Lemma layout_zero_pad w s p d z : z = Z.max 0 (w - (zlen s + zlen p) - zlen d) ->
+  layout AEq 48 w s p (pad z 48 ++ d) [] = layout AEq 48 w s p d [].
+Proof.
+  intros ->. unfold layout. change (zlen []) with 0. rewrite zlen_app, zlen_pad.
+  pose proof (zlen_nonneg d). set (n := zlen d) in *. set (a := zlen s + zlen p) in *.
+  replace (Z.max 0 (w - (a + 0) - (Z.max 0 (Z.max 0 (w - a - n)) + n))) with 0 by lia.
+  replace (Z.max 0 (w - (a + 0) - n)) with (Z.max 0 (w - a - n)) by lia.
+  unfold pad at 1. cbn [Z.to_nat repeat app]. rewrite <- app_assoc. reflexivity.
+Qed.
+
+Lemma numeric_layout_eq sp s p d g :
+  (f_fill sp <> None -> f_align sp <> None) -> rtl_zero_align_case sp = false -> d <> [] -> 1 <= g ->
+  let al := match dict_align sp with Some a => a | None => ARight end in
+  let fill := match dict_fill sp with Some c => c | None => 32 end in
+  layout al fill (f_width sp) s p
+    (if f_group sp then
+       if match al with AEq => true | _ => false end && (fill =? 48)
+       then pad_then_group g d (f_width sp - zlen s - zlen p) else sep_right g d
+     else d) []
+  = assemble sp ARight (if f_group sp then Some g else None) s p d [].
+Proof.
+  intros Hgr Hc Hd Hg al fill. destruct (eff_dict sp ARight Hgr Hc) as [Hf Ha].
+  subst al fill. rewrite <- Hf, <- Ha, assemble_layout.
+  assert (Hn : 1 <= zlen d) by (destruct d; [congruence|rewrite zlen_cons; pose proof (zlen_nonneg d); lia]).
+  destruct (f_group sp).
+  - rewrite body_of_grouped by auto. unfold zero_mode. rewrite andb_comm.
+    destruct ((eff_fill sp =? 48) && match eff_align sp ARight with AEq => true | _ => false end); [reflexivity|].
+    rewrite pad_then_group_nowidth by (auto; lia). reflexivity.
+  - unfold body_of. rewrite (match_nonempty d _ Hd).
+    destruct ((eff_fill sp =? 48) && match eff_align sp ARight with AEq => true | _ => false end) eqn:Ez.
+    + apply andb_true_iff in Ez. destruct Ez as [Ef Eal].
+      destruct (eff_align sp ARight); try discriminate. assert (eff_fill sp = 48) as -> by lia.
+      unfold group_digits. symmetry. apply layout_zero_pad. change (zlen []) with 0. lia.
+    + rewrite group_none_nopad by (auto; lia). reflexivity.
+Qed.
+
+Lemma utf8_ascii bs : Forall (fun b => 0 <= b < 128) bs -> utf8_decode bs = Some bs.
+Proof.
+  induction 1 as [|b bs Hb _ IH]; [reflexivity|]. cbn [utf8_decode].
+  unfold in_rng at 1. destruct ((0 <=? b) && (b <=? 127)) eqn:E; [|lia]. rewrite IH. reflexivity.
+Qed.
+
+Lemma rtl_digits t x : numeric t ->
+  map (digit_char (match rbase_of t with RH => true | _ => false end)) (digits (rbase_radix (rbase_of t)) x)
+  = map (digit_char (upper_of t)) (digits (base_of t) x).
+Proof. destruct t as [[]|]; cbn; try contradiction; reflexivity. Qed.
+Lemma rtl_prefix t (alt : bool) : numeric t ->
+  (if alt && negb (is_rd (rbase_of t)) then rbase_prefix (rbase_of t) else []) = if alt then prefix_of t else [].
+Proof. destruct t as [[]|], alt; cbn; try contradiction; reflexivity. Qed.
+Lemma rtl_group t : numeric t -> rbase_group (rbase_of t) = group_size t /\ 1 <= group_size t.
+Proof. destruct t as [[]|]; cbn; try contradiction; split; (reflexivity || lia). Qed.
+
+Theorem rtl_field_agrees sp sh v cs :
+  check_shape sp sh = true -> (f_fill sp <> None -> f_align sp <> None) -> rtl_agrees sp = true ->
+  (f_type sp = Some Ts -> Forall (fun b => 0 <= b < 128) (value_bytes v)) ->
+  0 <= f_width sp ->
+  rtl_emit_field sp (width sh) (sgn sh) = Some cs ->
+  rchunks_render cs v = py_format sp v.
+Proof.
+  intros Hk Hgr Hag Hs Hwpos Hemit. unfold rtl_agrees in Hag.
+  apply andb_true_iff in Hag. destruct Hag as [Hag Hbr]. apply andb_true_iff in Hag. destruct Hag as [Hza Hcd].
+  apply negb_true_iff in Hza, Hcd, Hbr.
+  unfold rtl_emit_field in Hemit.
+  destruct (128 <=? match dict_fill sp with Some c => c | None => 32 end) eqn:Easc; [discriminate|].
+  assert (Hnum : forall t, f_type sp = t -> numeric t ->
+            Some [RInt (RItem (width sh)
+                   (match dict_align sp with Some a => a | None => if is_cs t then ALeft else ARight end)
+                   (match dict_fill sp with Some c => c | None => 32 end) (f_width sp) (rbase_of t) (f_sign sp)
+                   (f_alt sp && negb (is_rd (rbase_of t))) (f_group sp) (sgn sh))] = Some cs ->
+            rchunks_render cs v = py_format sp v).
+  { intros t Et Hn H. injection H as <-. cbn [rchunks_render rchunk_render]. rewrite app_nil_r.
+    assert (Hcs : is_cs t = false) by (destruct t as [[]|]; cbn in *; try contradiction; reflexivity).
+    rewrite Hcs. unfold ritem_render. cbn [r_base r_sign r_show r_group r_just r_pad r_width].
+    assert (Hb : forall (A : Type) (x : A) (f : rbase -> A), match rbase_of t with Rstr => x | b => f b end = f (rbase_of t)).
+    { intros. destruct t as [[]|]; cbn in *; try contradiction; reflexivity. }
+    destruct (rtl_group t Hn) as [Hg1 Hg2].
+    transitivity (Some (layout (match dict_align sp with Some a => a | None => ARight end)
+                           (match dict_fill sp with Some c => c | None => 32 end) (f_width sp)
+                           (sign_text sp (v <? 0)) (if f_alt sp then prefix_of t else [])
+                           (if f_group sp then
+                              if match (match dict_align sp with Some a => a | None => ARight end) with AEq => true | _ => false end
+                                 && ((match dict_fill sp with Some c => c | None => 32 end) =? 48)
+                              then pad_then_group (group_size t) (digit_text t v)
+                                     (f_width sp - zlen (sign_text sp (v <? 0)) - zlen (if f_alt sp then prefix_of t else []))
+                              else sep_right (group_size t) (digit_text t v)
+                            else digit_text t v) [])).
+    - destruct t as [[]|]; cbn in Hn; try contradiction; cbn; unfold sign_text, digit_text; cbn;
+        destruct (f_alt sp); cbn; destruct (v <? 0); destruct (f_sign sp) as [[]|]; reflexivity.
+    - rewrite (numeric_layout_eq sp _ _ (digit_text t v) (group_size t) Hgr Hza (digit_text_nonempty t v) Hg2).
+      unfold py_format. rewrite Et. destruct t as [[]|]; cbn in Hn; try contradiction; reflexivity. }
+  destruct (f_type sp) as [[]|] eqn:Et.
+  1-5: apply (Hnum _ eq_refl I Hemit).
+  3: apply (Hnum None eq_refl I Hemit).
+  - (* c *)
+    destruct (check_shape_cs sp sh Hk) as (_ & Hneq & _ & Hz0 & _ & _); [rewrite Et; reflexivity|].
+    destruct (eff_dict sp ARight Hgr Hza) as [Hf Ha].
+    unfold py_format. rewrite Et.
+    unfold rtl_char_default_case in Hcd. rewrite Et in Hcd.
+    unfold rtl_char_brace_case in Hbr. rewrite Et in Hbr.
+    injection Hemit as <-. cbn [is_cs] in *.
+    rewrite assemble_layout. unfold body_of. rewrite Hf, Ha.
+    set (fill := match dict_fill sp with Some c => c | None => 32 end) in *.
+    set (w := f_width sp) in *.
+    assert (Hfill : w <> 0 -> rchunk_render (RFill fill (w - 1)) v = Some (pad (w - 1) fill)).
+    { intros Hw0. cbn [rchunk_render]. unfold fill, dict_fill, dict_zf in *. rewrite Hz0 in *. cbn [andb] in *.
+      destruct (f_fill sp) as [c|]; [|reflexivity]. destruct (is_brace c) eqn:Eb; [|reflexivity].
+      cbn [andb] in Hbr. assert (w = 1) by lia. replace (w - 1) with 0 by lia. reflexivity. }
+    unfold dict_align, dict_zf in *. rewrite Hz0 in *. cbn [andb] in *.
+    unfold layout. change (zlen []) with 0. change (zlen [v]) with 1.
+    destruct ((v <? 0) || (1114111 <? v)) eqn:Ev.
+    + destruct (f_align sp) as [[]|]; cbn [is_left negb andb app rchunks_render rchunk_render];
+        destruct (w =? 0); cbn [negb andb app rchunks_render rchunk_render]; rewrite ?Ev;
+        repeat match goal with |- context [match ?x with Some _ => _ | None => _ end] => destruct x end; reflexivity.
+    + destruct (f_align sp) as [[]|] eqn:Eal; try congruence; cbn [is_left negb andb app];
+        destruct (w =? 0) eqn:Ew; cbn [negb andb app rchunks_render]; rewrite ?Hfill by lia;
+        cbn [rchunk_render]; rewrite Ev; cbn [app].
+      * rewrite pad_nonpos by lia. reflexivity.
+      * rewrite app_nil_r. do 2 f_equal. unfold pad. f_equal. lia.
+      * rewrite pad_nonpos by lia. reflexivity.
+      * do 2 f_equal. unfold pad. f_equal. lia.
+      * rewrite pad_nonpos by lia. reflexivity.
+      * assert (w = 1) by lia. rewrite !pad_nonpos by lia. reflexivity.
+  - (* s *)
+    destruct (check_shape_cs sp sh Hk) as (_ & Hneq & _ & Hz0 & _ & _); [rewrite Et; reflexivity|].
+    destruct (eff_dict sp ALeft Hgr Hza) as [Hf Ha].
+    injection Hemit as <-. cbn [is_cs rchunks_render rchunk_render]. rewrite app_nil_r.
+    unfold ritem_render. cbn [r_base rbase_of r_just r_pad r_width].
+    unfold py_format. rewrite Et, (utf8_ascii _ (Hs eq_refl)), assemble_layout. unfold body_of.
+    rewrite Hf, Ha. reflexivity.
+Qed.
+
+Lemma py_format_grouped sp v : numeric (f_type sp) -> f_group sp = true ->
+  let t := f_type sp in
+  let s := sign_text sp (v <? 0) in
+  let p := if f_alt sp then prefix_of t else [] in
+  py_format sp v =
+  Some (layout (eff_align sp ARight) (eff_fill sp) (f_width sp) s p
+          (pad_then_group (group_size t) (digit_text t v)
+             (if zero_mode sp ARight then f_width sp - zlen s - zlen p else 0)) []).
+Proof.
+  intros Hn Hg t s p. subst t s p. unfold py_format. rewrite Hg.
+  assert (H4 : forall t, 1 <= group_size t) by (intros [[]|]; cbn; lia).
+  destruct (f_type sp) as [[]|] eqn:Et; cbn [numeric] in Hn; try contradiction;
+    rewrite assemble_layout, body_of_grouped by (auto using digit_text_nonempty); reflexivity.
+Qed.
+
+Lemma eat_digits_nonneg s : forall acc w r, 0 <= acc -> eat_digits s acc = (w, r) -> 0 <= w.
+Proof.
+  induction s as [|c s IH]; intros acc w r Ha; cbn [eat_digits].
+  - intros H; injection H as <- _. exact Ha.
+  - destruct (is_digit c) eqn:E.
+    + apply IH. unfold is_digit in E. lia.
+    + intros H; injection H as <- _. exact Ha.
+Qed.
+
+Lemma parse_raw_width_nonneg s sp : parse_raw s = Some sp -> 0 <= f_width sp.
+Proof.
+  intros H. destruct (parse_raw_sound s sp H) as (wd & _ & Hw & _).
+  unfold width_digits in Hw. destruct wd as [|c r]; [lia|].
+  destruct Hw as (Hc & _ & He). eapply eat_digits_nonneg; [|exact He]. lia.
+Qed.
+
+(* for every spec accepted for the shape: the items emitted into the RTLIL FORMAT parameter denote the text the
+   simulator prints, except in the three excluded classes *)
+Lemma rtl_accepted_agrees s sh sp v cs :
+  parse_spec s sh = Some sp -> rtl_agrees sp = true ->
+  (f_type sp = Some Ts -> Forall (fun b => 0 <= b < 128) (value_bytes v)) ->
+  rtl_emit_field sp (width sh) (sgn sh) = Some cs ->
+  rchunks_render cs v = py_format sp v.
+Proof.
+  intros Hp Hag Hs He. destruct (parse_spec_check _ _ _ Hp) as [Hr Hk].
+  destruct (parse_raw_sound s sp Hr) as (wd & _ & _ & Hgr).
+  eapply rtl_field_agrees; eauto.
+  - intros Hf. destruct (Hgr Hf); auto.
+  - eapply parse_raw_width_nonneg; eauto.
+Qed.
+
+(* emission fails (NotImplementedError) exactly for a fill character outside ASCII *)
+Lemma rtl_emit_defined sp size sg :
+  rtl_emit_field sp size sg = None <-> 128 <= match dict_fill sp with Some c => c | None => 32 end.
+Proof.
+  unfold rtl_emit_field. destruct (128 <=? match dict_fill sp with Some c => c | None => 32 end) eqn:E.
+  - split; [lia|reflexivity].
+  - split; [|lia]. destruct (f_type sp) as [[]|]; discriminate.
+Qed.
